@@ -52,8 +52,10 @@ func root() ipld.Link { return cidlink.Link{Cid: doubles.Cid("root")} }
 // RootLink is the link of the fixed root (for other harness packages).
 func RootLink() ipld.Link { return root() }
 
-// NewWorld builds transport + doubles; ch0: self requests from B ({A,B,1}); ch1: B requests from self ({B,A,2});
-// ch2: C responds to self's push, i.e. C requests data from self with a response extension ({A,C,3}).
+// NewWorld builds transport + doubles; ch0: self requests from B ({A,B,2}); ch1: B requests from self ({B,A,2});
+// ch2: C responds to self's push, i.e. C requests data from self with a response extension ({A,C,2}).
+// All channels (and the phantom {C,A,2}) carry the same transfer id on purpose: peers number their transfers
+// independently, so only the whole (initiator, responder, id) triple identifies a channel.
 func NewWorld() *World {
 	w := &World{GS: doubles.NewFakeGS(), H: &doubles.RecHandler{}, Owner: map[int]int{}, Current: map[int]int{}, Store: map[int]bool{}, Cleaned: map[int]bool{},
 		ReqCancelled: map[int]bool{}, Pending: map[int]int{}, Gone: map[int]int{}, EverQueued: map[int]int{}, StoreCalls: map[int]int{}}
@@ -62,9 +64,9 @@ func NewWorld() *World {
 		panic(err)
 	}
 	w.Chans = []datatransfer.ChannelID{
-		{Initiator: doubles.PeerA, Responder: doubles.PeerB, ID: 1},
+		{Initiator: doubles.PeerA, Responder: doubles.PeerB, ID: 2},
 		{Initiator: doubles.PeerB, Responder: doubles.PeerA, ID: 2},
-		{Initiator: doubles.PeerA, Responder: doubles.PeerC, ID: 3},
+		{Initiator: doubles.PeerA, Responder: doubles.PeerC, ID: 2},
 	}
 	for i := range w.Chans {
 		w.Current[i] = -1
